@@ -819,7 +819,13 @@ where
                     Ok(Some(Ev::Scalar { value, style, .. }))
                         if scalar_is_nullish(value, style) =>
                     {
-                        let _ = self.src.next();
+                        // Consuming the null-like document may surface a deferred reader error;
+                        // it must not be dropped.
+                        if let Err(e) = self.src.next() {
+                            self.finished = true;
+                            let _ = self.src.finish();
+                            return Some(Err(e));
+                        }
                         continue;
                     }
                     Ok(Some(_)) => {
@@ -1193,7 +1199,13 @@ where
                     Ok(Some(Ev::Scalar { value, style, .. }))
                         if scalar_is_nullish(value, style) =>
                     {
-                        let _ = self.src.next();
+                        // Consuming the null-like document may surface a deferred reader error;
+                        // it must not be dropped.
+                        if let Err(e) = self.src.next() {
+                            self.finished = true;
+                            let _ = self.src.finish();
+                            return Some(Err(e));
+                        }
                         continue;
                     }
                     Ok(Some(_)) => {
@@ -1921,7 +1933,13 @@ where
                     Ok(Some(Ev::Scalar { value, style, .. }))
                         if scalar_is_nullish(value, style) =>
                     {
-                        let _ = self.src.next();
+                        // Consuming the null-like document may surface a deferred reader error;
+                        // it must not be dropped.
+                        if let Err(e) = self.src.next() {
+                            self.finished = true;
+                            let _ = self.src.finish();
+                            return Some(Err(e));
+                        }
                         continue;
                     }
                     Ok(Some(_)) => {
